@@ -122,6 +122,12 @@ type recorder struct {
 	delivered  [][]byte // handed to Invoke / Recv
 }
 
+func (r *recorder) reset() {
+	r.mu.Lock()
+	r.recognised, r.delivered = nil, nil
+	r.mu.Unlock()
+}
+
 func (r *recorder) ParsePackage(buff []byte) (int, int) {
 	if r.client {
 		return clientHook.ParsePackage(buff)
@@ -166,6 +172,8 @@ type Case struct {
 	Side    string   `json:"side"` // server | client
 	M       int      `json:"max_len"`
 	Streams []Stream `json:"streams"`
+	// ReuseClient (client side): the streams are consecutive connections of one client
+	ReuseClient bool `json:"reuse_client,omitempty"`
 }
 
 func body(i, n int) []byte {
@@ -392,6 +400,10 @@ func drawCase(side string) func(rt *rapid.T) Case {
 		c := Case{Side: side}
 		c.M = rapid.SampledFrom([]int{4, 5, 16, 64, 1024, 65536, 10485760}).Draw(rt, "M")
 		ns := 1
+		if side == "client" && rapid.Bool().Draw(rt, "reuseClient") {
+			c.ReuseClient = true
+			ns = rapid.IntRange(2, 4).Draw(rt, "nconnections")
+		}
 		if side == "server" {
 			ns = rapid.IntRange(8, 24).Draw(rt, "nstreams")
 		}
@@ -441,14 +453,30 @@ func runCase(c Case) *stat.Failure {
 	protocol.SetMaxPackageLength(c.M)
 	defer protocol.SetMaxPackageLength(10485760)
 	if c.Side == "client" {
+		var shared *recorder
+		var sharedClient *transport.TarsClient
 		for i := range c.Streams {
 			s := &c.Streams[i]
 			stream, expect, _ := s.build(c.M)
 			rec := &recorder{client: true}
+			if c.ReuseClient {
+				// the streams of the case are consecutive connections of ONE client (as after
+				// reconnects): what a connection left unframed must not reach the next one
+				if shared == nil {
+					shared = &recorder{client: true}
+					sharedClient = transport.VerifNewClient(shared, &transport.TarsClientConf{Proto: "tcp", QueueLen: 10})
+				}
+				shared.reset()
+				rec = shared
+			}
 			fc := newFakeConn(s.chunks(stream))
 			done := make(chan struct{})
 			go func() {
 				defer close(done)
+				if c.ReuseClient {
+					sharedClient.VerifRecvOn(fc)
+					return
+				}
 				transport.VerifClientRecv(rec, &transport.TarsClientConf{Proto: "tcp", QueueLen: 10}, fc)
 			}()
 			select {
@@ -462,6 +490,9 @@ func runCase(c Case) *stat.Failure {
 				time.Sleep(200 * time.Microsecond)
 			}
 			time.Sleep(300 * time.Microsecond)
+			if c.ReuseClient {
+				time.Sleep(2 * time.Millisecond) // stray deliveries of this stream must not count for the next
+			}
 			if f := verdict("client", i, s, c.M, rec, fc); f != nil {
 				return f
 			}
@@ -561,7 +592,7 @@ func TestC07(t *testing.T) {
 		st.CaseJSON(*c, nt, cls...)
 		st.Class("streams", int64(len(c.Streams)))
 	}
-	stat.Check(t, st, "client", stat.N(4000, 60000), drawCase("client"), func(c Case) *stat.Failure { record(&c); return runCase(c) })
+	stat.Check(t, st, "client", stat.N(2500, 40000), drawCase("client"), func(c Case) *stat.Failure { record(&c); return runCase(c) })
 	stat.Check(t, st, "server", stat.N(24, 500), drawCase("server"), func(c Case) *stat.Failure { record(&c); return runCase(c) })
 	stat.Check(t, st, "tarsrequest", stat.N(20000, 400000), func(rt *rapid.T) TRCase {
 		M := rapid.SampledFrom([]int{4, 5, 16, 64, 1024, 65536, 10485760}).Draw(rt, "M")
